@@ -29,7 +29,7 @@ func tlsScenarios() []tlsScenario {
 	var out []tlsScenario
 	for cfg := 0; cfg < 3; cfg++ {
 		for pos := 0; pos < 3; pos++ {
-			for _, cred := range []string{"none", "selfsigned", "foreign", "expired", "wrongname", "viainter", "right"} {
+			for _, cred := range []string{"none", "selfsigned", "foreign", "expired", "wrongname", "sanname", "viainter", "right"} {
 				out = append(out, tlsScenario{cfg, cred, "complete", pos})
 			}
 			out = append(out, tlsScenario{cfg, "plaintext", "complete", pos})
@@ -50,7 +50,7 @@ func (s tlsScenario) admitted() bool {
 	switch s.Cred {
 	case "right":
 		return true
-	case "wrongname", "viainter":
+	case "wrongname", "sanname", "viainter":
 		return s.Config == 0
 	}
 	return false
@@ -85,6 +85,8 @@ func identFor(cred string) *wl.Ident {
 		return p.Expired
 	case "wrongname":
 		return p.WrongName
+	case "sanname":
+		return p.SANName
 	case "viainter":
 		return p.ViaInter
 	case "right":
@@ -343,7 +345,7 @@ func init() {
 	register(&Check{
 		ID: "C09", Bubble: true, Run: runC09,
 		Runs:   map[string]int{"quick": 20 * n, "thorough": 1500 * n},
-		Rule:   fmt.Sprintf("the scenario space {no rule, common-name rule, rule+password} x {no certificate, self-signed, foreign CA, expired, right CA wrong name, right name only on an intermediate, right CA right name, plain-text bytes, garbage; abort after ClientHello; stalled handshake with and without a valid certificate} x {before, between, after well-behaved clients} = %d scenarios is enumerated completely (run index mod %d); per scenario the schedule (accept loop vs. handshake records vs. other clients), record chunking and TLS 1.2/1.3 are sampled; a third of the runs repeat the scenario client 2..12 times, half of those one after the other with a shared TLS session cache (resumed sessions); with rule+password every TLS client first sends a command before AUTH, which must not reach the handler; distinct = distinct (scenario, event-log hash) pairs", n, n),
+		Rule:   fmt.Sprintf("the scenario space {no rule, common-name rule, rule+password} x {no certificate, self-signed, foreign CA, expired, right CA wrong name, right CA wrong common name with the rule's name among the DNS alternative names, right name only on an intermediate, right CA right name, plain-text bytes, garbage; abort after ClientHello; stalled handshake with and without a valid certificate} x {before, between, after well-behaved clients} = %d scenarios is enumerated completely (run index mod %d); per scenario the schedule (accept loop vs. handshake records vs. other clients), record chunking and TLS 1.2/1.3 are sampled; a third of the runs repeat the scenario client 2..12 times, half of those one after the other with a shared TLS session cache (resumed sessions); with rule+password every TLS client first sends a command before AUTH, which must not reach the handler; distinct = distinct (scenario, event-log hash) pairs", n, n),
 		Real:   []string{"redis.Server TLS accept loop and handshake, NewTLSConfigFrom, auth.CertificateAuthenticator, auth.AuthManager, crypto/tls (server and clients), crypto/x509 verification against the simulated clock"},
 		Stub:   []string{"network: simulated", "certificates: deterministic Ed25519 PKI valid relative to the bubble epoch", "handler: recording double"},
 		Assume: []string{"a plain client counts as served when it gets any reply to PING (with rule+password it cannot authenticate on the plain port)"},
